@@ -768,31 +768,119 @@ def _factored(pred, cons, cut, exact, limit, stats):
             return ("valid", {"grid": 0, "note": "constraints unsatisfiable"})
         comp_points.append((members, pts))
         total *= len(pts)
-        if total > MAX_CUT_GRID:
+        if total > 40 * MAX_CUT_GRID:
             return None
-    # cartesian product of the groups' feasible points
-    idx = [None] * len(cut)
-    rep = 1
-    for members, pts in comp_points:
-        n = len(pts)
-        tile = total // (rep * n)
-        base = np.tile(np.repeat(np.arange(n), rep), tile)
-        for col, k in enumerate(members):
-            idx[k] = pts[base, col]
-        rep *= n
-    try:
-        (pa,) = evaluate_points([pred], cut, idx)
-    except (TooBig, KeyError, MemoryError):
-        return None
+    # cartesian product of the groups' feasible points, evaluated in chunks
+    comp_points.sort(key=lambda t: -len(t[1]))
+    CH = 1_500_000
+    big_members, big_pts = comp_points[0]
+    rest = comp_points[1:]
+    rest_total = total // len(big_pts)
+    step = max(1, CH // max(rest_total, 1))
+    nbad = 0
+    points = []
+    for lo in range(0, len(big_pts), step):
+        chunk = [(big_members, big_pts[lo:lo + step])] + rest
+        ctot = 1
+        for _, pts in chunk:
+            ctot *= len(pts)
+        idx = [None] * len(cut)
+        rep = 1
+        for members, pts in chunk:
+            n = len(pts)
+            tile = ctot // (rep * n)
+            base = np.tile(np.repeat(np.arange(n), rep), tile)
+            for col, k in enumerate(members):
+                idx[k] = pts[base, col]
+            rep *= n
+        try:
+            (pa,) = evaluate_points([pred], cut, idx)
+        except (TooBig, KeyError, MemoryError):
+            return None
+        bad = ~truth_array(pred, pa)
+        if bad.any():
+            where = np.nonzero(bad)[0]
+            nbad += int(bad.sum())
+            for w in where[: max(0, limit - len(points))]:
+                points.append({c: int(idx[k][w]) for k, c in enumerate(cut)})
     if stats is not None:
         stats["grids"] = stats.get("grids", 0) + 1
         stats["points"] = stats.get("points", 0) + total
-    bad = ~truth_array(pred, pa)
-    if not bad.any():
+    if not nbad:
         return ("valid", {"grid": total, "exact_cut": exact, "factored": True, "cut": [c.name for c in cut]})
-    where = np.nonzero(bad)[0]
-    points = [{c: int(idx[k][w]) for k, c in enumerate(cut)} for w in where[:limit]]
-    return ("violations", cut, points, int(bad.sum()), None, exact)
+    return ("violations", cut, points, nbad, None, exact)
+
+
+def realize(point, pred, constraints, tries=64):
+    """
+    turn a violating grid point of a (possibly inexact) cut into an assignment of the base
+    variables on which the predicate is false and every constraint true -- checked by exact
+    evaluation at that single base point.  Returns {base var: value index} or None.
+    """
+    cons = [c for c in constraints if isinstance(c, Node)]
+    targets = [pred] + cons
+    base, exact = base_cut(targets)
+    if not exact:
+        return None
+    bpos = {b.id: k for k, b in enumerate(base)}
+    # group the cut nodes by overlapping base supports
+    items = []
+    for c, i in point.items():
+        sup = sorted(bpos[a] for a, n in ancestors(c).items() if n.is_var and a in bpos)
+        items.append((c, i, sup))
+    parent = {}
+
+    def find(a):
+        parent.setdefault(a, a)
+        while parent[a] != a:
+            parent[a] = parent[parent[a]]
+            a = parent[a]
+        return a
+
+    for c, i, sup in items:
+        for a in sup[1:]:
+            parent[find(sup[0])] = find(a)
+    groups = {}
+    for c, i, sup in items:
+        if not sup:
+            continue
+        groups.setdefault(find(sup[0]), []).append((c, i, sup))
+    choices = []  # per group: (base positions, array of candidate assignments)
+    for root, members in groups.items():
+        positions = sorted(set(a for _, _, sup in members for a in sup))
+        sub = [base[k] for k in positions]
+        if grid_size(sub) > 2_000_000:
+            return None
+        try:
+            arrs = evaluate([c for c, _, _ in members], sub)
+        except (TooBig, KeyError):
+            return None
+        ok = np.ones(tuple(len(n.values) for n in sub), dtype=bool)
+        for (c, i, _), a in zip(members, arrs):
+            ok = ok & (a == i)
+        pts = np.argwhere(ok)
+        if len(pts) == 0:
+            return None  # the grid point is not realisable
+        choices.append((positions, pts))
+    rng = np.random.default_rng(0)
+    for t in range(tries):
+        idx = [np.array([0], dtype=np.int64) for _ in base]
+        if t > 0:
+            for k in range(len(base)):
+                idx[k] = np.array([rng.integers(len(base[k].values))], dtype=np.int64)
+        for positions, pts in choices:
+            row = pts[0] if t == 0 else pts[rng.integers(len(pts))]
+            for col, k in enumerate(positions):
+                idx[k] = np.array([int(row[col])], dtype=np.int64)
+        try:
+            vals = evaluate_points(targets, base, idx)
+        except (KeyError, TooBig):
+            return None
+        if truth_array(pred, vals[0])[0]:
+            continue
+        if all(truth_array(c, v)[0] for c, v in zip(cons, vals[1:])):
+            return {b: int(idx[k][0]) for k, b in enumerate(base)}
+    return None
 
 
 def reset():
